@@ -74,6 +74,8 @@ impl TransportVisitor for V {
         let co = CoDevice::new(w.dev.clone(), cosim::honest_responder(kind));
         co.borrow_mut().poll_on_spin = false;
         co.borrow_mut().spin_horizon = 12;
+        // (The device is not live before DRIVER_OK: notifications sent earlier are lost on it.)
+        co.borrow_mut().ignore_early_notifications = true;
         cosim::install(&co);
         // Script for a blocking receive: 1 = at the next busy-wait iteration the device sets
         // DEVICE_NEEDS_RESET in its status, 2 = at the next one it delivers a frame all the same.
